@@ -15,6 +15,11 @@ Record case := mk_case {
   o_count : Z;
   o_first : option row; o_last : option row; o_take : option row;
   o_batches : list (list row); o_batches_ra : Z;
+  (* further destination kinds *)
+  o_ptrs : list row;                      (* Find into a slice of pointers *)
+  o_array : list row;                     (* Find into an array (first RowsAffected elements) *)
+  o_single : option row; o_single_ra : Z; (* Find into one struct: the first row *)
+  o_prim : option Z; o_prim_ra : Z;       (* Select(id).Scan into one integer: keeps the last row *)
   o_errs : Z  (* number of unexpected errors reported by any path *)
 }.
 
@@ -27,6 +32,9 @@ Definition model_agrees (c : case) : bool :=
   rows_eqb (o_find c) f
   && (o_find_ra c =? Z.of_nat (length f))
   && rows_eqb (o_maps c) f && rows_eqb (o_rows c) f && rows_eqb (o_scan c) f
+  && rows_eqb (o_ptrs c) f && rows_eqb (o_array c) f
+  && orow_eqb (o_single c) (hd_error f) && (o_single_ra c =? (if match f with [] => true | _ => false end then 0 else 1))
+  && option_eqb Z.eqb (o_prim c) (option_map fst (hd_error (rev f))) && (o_prim_ra c =? Z.of_nat (length f))
   && zlist_eqb (o_pluck_id c) (map fst f) && zlist_eqb (o_pluck_v c) (map snd f)
   && (has_lops c || (o_count c =? count (c_tbl c) (c_cond c)))
   && orow_eqb (o_first c) (first_ (c_tbl c) (c_cond c) (c_ord c) st)
@@ -69,6 +77,9 @@ Definition spec_holds (c : case) : bool :=
                   match ref_lim (c_lops c) with Some n => firstn (Z.to_nat n) after | None => after end))
   && rows_eqb (o_maps c) f && rows_eqb (o_rows c) f && rows_eqb (o_scan c) f
   && zlist_eqb (o_pluck_id c) (map fst f) && zlist_eqb (o_pluck_v c) (map snd f)
+  && rows_eqb (o_ptrs c) f && rows_eqb (o_array c) f
+  && orow_eqb (o_single c) (hd_error f)
+  && option_eqb Z.eqb (o_prim c) (option_map fst (hd_error (rev f))) && (o_prim_ra c =? Z.of_nat (length f))
   && (o_find_ra c =? Z.of_nat (length f))
   (* Count, First, Last, not-found: only for chains without limit/offset *)
   && (has_lops c ||
